@@ -395,6 +395,32 @@ pub fn generate(w: &mut dyn Write, seed: u64, thorough: bool) {
                     }
                 }
             }
+            // 4b'. multi-user server: an identity header that names NO registered user must be refused whatever key sealed the request --
+            //      sealed under the server key itself (a peer that knows only the server key), under an unregistered user key, and a
+            //      registered user's request whose identity header was replaced by random bytes
+            if let Some(us) = users {
+                let stranger = rng.bytes(n);
+                for (ck, what) in [(key.clone(), "server-key"), (stranger.clone(), "stranger")] {
+                    let _ = what;
+                    let cargs: Vec<String> = vec!["sstcp".into(), kname.into(), hex(&ck), hex(&key), "none".into(), "client".into(), hex(&rng.bytes(n)), "4:7f000001:80".into(), now.to_string(), format!("E{}", hex(b"GET / HTTP/1.1\r\n\r\n"))];
+                    let cf: Vec<&str> = cargs.iter().map(|s| s.as_str()).collect();
+                    let r = exec(&cf);
+                    if let Some(wire) = r[0].split(" | ").next().and_then(|x| x.strip_prefix("OK ")).map(unhex) {
+                        let sargs: Vec<String> = vec!["sstcp".into(), kname.into(), hex(&key), "-".into(), users_s.clone(), "server".into(), hex(&rng.bytes(n)), "-".into(), now.to_string(), format!("D{}", hex(&wire)), "@n".to_string()];
+                        crate::emit_case(w, &sargs, exec);
+                    }
+                }
+                let good = us.last().unwrap().clone();
+                let cargs: Vec<String> = vec!["sstcp".into(), kname.into(), hex(&good), hex(&key), "none".into(), "client".into(), hex(&rng.bytes(n)), "4:7f000001:80".into(), now.to_string(), format!("E{}", hex(b"hello"))];
+                let cf: Vec<&str> = cargs.iter().map(|s| s.as_str()).collect();
+                if let Some(mut wire) = exec(&cf)[0].split(" | ").next().and_then(|x| x.strip_prefix("OK ")).map(unhex) {
+                    for i in n..n + 16 {
+                        wire[i] = rng.bytes(1)[0];
+                    }
+                    let sargs: Vec<String> = vec!["sstcp".into(), kname.into(), hex(&key), "-".into(), users_s.clone(), "server".into(), hex(&rng.bytes(n)), "-".into(), now.to_string(), format!("D{}", hex(&wire)), "@n".to_string()];
+                    crate::emit_case(w, &sargs, exec);
+                }
+            }
             // 4c. chains of identity keys (iPSK0:iPSK1:...:uPSK): header i is keyed by iPSK_i and names the NEXT key; only the client
             //     builds such chains (the server here handles one level), so the bytes are compared with the model of the specification
             if users.is_none() && (kname == "22a128" || kname == "22a256") {
